@@ -35,41 +35,76 @@ def g3_world_construction(prog):
     aggs = aggregates_of(prog, 'world::World')
     checked_ctors = set()
     S = pathsem.strip_refs
-    for fn in {fn.dp: fn for fn, b, i, s in aggs}.values():
-        key = fn.path
-        is_clone = fn.name == 'clone' and 'core::clone::Clone for world::World' in fn.path
-        r.inst('World aggregate in %s' % key)
-        if is_clone:
-            continue
-        top = owner_fn(prog, fn) if fn.kind == 'Closure' else fn
+
+    def is_world_clone(fn):
+        return fn.name == 'clone' and 'core::clone::Clone for world::World' in fn.path
+
+    def verdict(top, builder=None):
+        """Over the returning paths of `top` that build a World (an aggregate, or a call of the unchecked assembler
+        `builder`): -> 'ok' | 'bad' (a building path without the assertion before it) | 'wrong' (assertion on another
+        type) | 'cut'"""
         E = pathsem.analyse(prog, top)
         rets = [p for p in E.paths if p.ended == 'return']
         if E.truncated or not rets:
-            r.viol('G3', key + '/not-analysable', fn.loc(), 'path enumeration cut off')
-            continue
+            return 'cut'
         reg = None
         if top.impl and top.impl['self'].get('k') == 'adt':
             ga = [a_ for a_ in top.impl['self']['args'] if a_.get('k') != 'region']
             reg = ga[0] if ga else None
         bad = wrong = False
         for p in rets:
-            builds = any(isinstance(t, tuple) and t[0] == 'agg' and t[1] == 'world::World'
-                         for root in [p.ret] + [e['value'] for e in p.events if e['k'] == 'store'] + [a_ for e in p.events if e['k'] == 'call' for a_ in e['args']]
-                         for t in pathsem.subterms(root))
+            if builder is None:
+                at = None
+                builds = any(isinstance(t, tuple) and t[0] == 'agg' and t[1] == 'world::World'
+                             for root in [p.ret] + [e['value'] for e in p.events if e['k'] == 'store'] + [a_ for e in p.events if e['k'] == 'call' for a_ in e['args']]
+                             for t in pathsem.subterms(root))
+            else:
+                calls = p.calls(lambda e: (e['f'].get('res') or e['f']).get('dp') == builder.dp)
+                builds = bool(calls)
+                at = calls[0]['i'] if calls else None
             if not builds:
                 continue
-            asserts = p.calls(lambda e: e['name'] == 'assert_no_duplicates')
+            asserts = p.calls(lambda e: e['name'] == 'assert_no_duplicates' and (at is None or e['i'] < at))
             if not asserts:
                 bad = True
-            elif reg is not None and not any(e['gargs'] and json.loads(e['gargs'][0]) == json.loads(pathsem.ty_key(strip_regions(reg))) for e in asserts):
+            elif reg is not None and top.impl['self'].get('path', '').endswith('world::World') and not any(e['gargs'] and json.loads(e['gargs'][0]) == json.loads(pathsem.ty_key(strip_regions(reg))) for e in asserts):
                 wrong = True
-        if bad:
+        return 'bad' if bad else 'wrong' if wrong else 'ok'
+
+    def settle(fn, builder, depth, key):
+        """fn builds a World (itself, or through the unchecked assembler `builder`). Either it asserts first, or it is
+        crate-private and every one of its callers does (the assembler pattern: `from_raw_parts` + checked callers)."""
+        top = owner_fn(prog, fn) if fn.kind == 'Closure' else fn
+        v = verdict(top, builder)
+        if v == 'cut':
+            r.viol('G3', key + '/not-analysable', fn.loc(), 'path enumeration cut off')
+            return
+        if v == 'wrong':
+            r.viol('G3', key + '/assert-on-other-type', fn.loc(), 'duplicate assertion is not applied to the world\'s registry type')
+            return
+        if v == 'ok':
+            checked_ctors.add(top.dp)
+            return
+        callers = {}
+        for g in prog.fns.values():
+            if g.dp != top.dp and g.body is not None and g.body.calls(lambda c: (c.get('res') or c).get('dp') == top.dp):
+                gt = owner_fn(prog, g) if g.kind == 'Closure' else g
+                callers[gt.dp] = gt
+        if top.d.get('exported') or not callers or depth >= 3:
             r.viol('G3', key + '/unchecked-world', fn.loc(),
                    'a World is built here on a path without a duplicate-component assertion: a registry listing one type twice would be accepted and alias its columns')
-        elif wrong:
-            r.viol('G3', key + '/assert-on-other-type', fn.loc(), 'duplicate assertion is not applied to the world\'s registry type')
-        else:
-            checked_ctors.add(fn.dp)
+            return
+        for g in callers.values():
+            r.inst('World assembled through %s in %s' % (top.name, g.path[:80]))
+            if is_world_clone(g):
+                continue        # a copy of a World whose registry type was validated when it was made
+            settle(g, top, depth + 1, g.path)
+    for fn in {fn.dp: fn for fn, b, i, s in aggs}.values():
+        key = fn.path
+        r.inst('World aggregate in %s' % key)
+        if is_world_clone(fn):
+            continue
+        settle(fn, None, 0, key)
     if not checked_ctors:
         r.viol('G3', 'no-checked-constructor', '-', 'no World constructor with a duplicate assertion found')
     # every fn whose output type is World / Result<World,..> (exported or not) and that does not take a
